@@ -3,7 +3,7 @@
 # worktree; prints one line per mutant: CAUGHT / MISSED / DID-NOT-APPLY.  Nothing in /repo is touched.
 cd /verif
 want="$*"
-grep -v '^#' tools/mutants.tsv | while IFS="$(printf '\t')" read pid file expr what; do
+grep -v '^#' tools/mutants.tsv | while IFS="$(printf '\t')" read -r pid file expr what; do
   [ -n "$want" ] && ! echo " $want " | grep -q " $pid " && continue
   out=$(tools/mutant_wt.sh "$pid" "$expr" "$file" 3 2>&1)
   if echo "$out" | grep -q "DID NOT APPLY"; then r=DID-NOT-APPLY; elif echo "$out" | grep -q "^VIOLATION"; then r=CAUGHT; else r=MISSED; fi
